@@ -425,8 +425,74 @@ func c03Scenario(c *Ctx, idx int, r *Rng) {
 			}
 		}
 	}
+	// `git lfs push <remote> <ref>...` run directly, one or several refs in one command: after it succeeds
+	// every pointer introduced by a commit reachable from a NAMED ref and from no remote-tracking ref of
+	// that remote names an object the server holds — whatever the other refs named beside it
+	doLfsPush := func() {
+		rm := Pick(r, remotes)
+		n := 1 + r.Intn(3)
+		var refs []string
+		for k := 0; k < n; k++ {
+			b := Pick(r, branches)
+			dup := false
+			for _, x := range refs {
+				dup = dup || x == b
+			}
+			if !dup {
+				refs = append(refs, b)
+			}
+		}
+		if tags > 0 && r.Chance(25) {
+			refs = append(refs, fmt.Sprintf("t%d", 1+r.Intn(tags)))
+		}
+		args := append([]string{"lfs", "push", rm.name}, refs...)
+		log("git %s", strings.Join(args, " "))
+		rl := append([]string{"--objects"}, refs...)
+		rl = append(rl, "--not", "--remotes="+rm.name)
+		want := map[string]bool{}
+		for _, l := range revList(w.dir, w.env, rl...) {
+			f := strings.Fields(l)
+			if len(f) == 0 {
+				continue
+			}
+			typ, _ := w.git("cat-file", "-t", f[0])
+			if strings.TrimSpace(typ) != "blob" {
+				continue
+			}
+			szs, _ := w.git("cat-file", "-s", f[0])
+			var sz int
+			fmt.Sscan(strings.TrimSpace(szs), &sz)
+			if sz >= cutSpec || sz == 0 {
+				continue
+			}
+			blob, _ := w.git("cat-file", "blob", f[0])
+			if p, ok := isPointerText([]byte(blob)); ok && p.Size > 0 {
+				want[p.Oid] = true
+			}
+		}
+		out, code := w.git(args...)
+		c.R.Count(fmt.Sprintf("lfspush.refs.%d", len(refs)))
+		if code != 0 {
+			c.R.Count("lfspush.fail")
+			return
+		}
+		c.R.Count("lfspush.ok")
+		var missing []string
+		rm.srv.mu.Lock()
+		for oid := range want {
+			if _, have := rm.srv.objs[oid]; !have {
+				missing = append(missing, oid[:12])
+			}
+		}
+		rm.srv.mu.Unlock()
+		sort.Strings(missing)
+		c.R.Count(fmt.Sprintf("lfspush.objects.%d", min(len(want), 9)))
+		if len(missing) > 0 {
+			fail("`git lfs push` of the named refs succeeded but an object they reference (and no remote-tracking ref does) is not on the server", strings.Join(missing, ", ")+" | "+out)
+		}
+	}
 	for op := 0; op < nops; op++ {
-		switch r.Intn(15) {
+		switch r.Intn(16) {
 		case 12: // the user bypasses the hook: refs reach the remote without their LFS objects
 			if r.Chance(50) {
 				br := Pick(r, branches)
@@ -508,6 +574,8 @@ func c03Scenario(c *Ctx, idx int, r *Rng) {
 				w.git("tag", "-a", "-m", "x", fmt.Sprintf("t%d", tags))
 			}
 			log("tag t%d", tags)
+		case 15:
+			doLfsPush()
 		case 9: // move a file out of LFS tracking (raw content committed under an untracked name)
 			w.write("raw.txt", newContent())
 			commit("raw")
@@ -538,6 +606,117 @@ func c03Scenario(c *Ctx, idx int, r *Rng) {
 	c.R.Count(fmt.Sprintf("remotes.%d", nremotes))
 	if idx%10 == 0 {
 		c.R.Sample(map[string]interface{}{"steps": steps, "requests_captured": nreq, "pushes": pushed})
+	}
+}
+
+// c03LfsPushRefs: `git lfs push <remote> <ref>...` with SEVERAL refs in one command whose histories are nested
+// in and fork from one another, some of them already on the remote (a remote-tracking ref exists), most not:
+// after it succeeds every object referenced by a commit reachable from a named ref and from no
+// remote-tracking ref is on the server — whatever else was named beside it and in whatever order.
+func c03LfsPushRefs(c *Ctx, idx int, r *Rng) {
+	base := filepath.Join(c.Work, fmt.Sprintf("c03r-%d", idx))
+	defer os.RemoveAll(base)
+	os.MkdirAll(base, 0o755)
+	srv := newLfsServer()
+	defer srv.srv.Close()
+	remote := filepath.Join(base, "remote.git")
+	runIn(base, nil, "git", "init", "-q", "--bare", remote)
+	w, err := newScenRepo(c, filepath.Join(base, "w"), srv)
+	if err != nil {
+		return
+	}
+	w.git("remote", "add", "origin", remote)
+	w.write(".gitattributes", []byte("*.bin filter=lfs -text\n"))
+	w.git("add", ".gitattributes")
+	w.git("commit", "-qm", "attrs")
+	var steps []string
+	log := func(f string, a ...interface{}) { steps = append(steps, fmt.Sprintf(f, a...)) }
+	refs := []string{"master"}
+	oidsOf := map[string][]string{} // commit label -> oids introduced
+	nfile := 0
+	addCommit := func() {
+		k := 1 + r.Intn(2)
+		for j := 0; j < k; j++ {
+			nfile++
+			w.write(fmt.Sprintf("f%d.bin", nfile), r.Bytes(40+nfile))
+		}
+		w.git("add", "-A")
+		w.git("commit", "-qm", fmt.Sprintf("c%d", nfile))
+	}
+	addCommit()
+	nb := 2 + r.Intn(3)
+	for b := 1; b <= nb; b++ {
+		from := Pick(r, refs)
+		if r.Chance(60) {
+			from = refs[len(refs)-1] // a chain: each branch contains the one before
+		}
+		name := fmt.Sprintf("br%d", b)
+		w.git("checkout", "-q", "-b", name, from)
+		if !r.Chance(15) { // sometimes a branch at the very commit of another
+			addCommit()
+		}
+		refs = append(refs, name)
+		log("%s from %s", name, from)
+	}
+	if r.Chance(40) {
+		t := Pick(r, refs)
+		w.git("tag", "t1", t)
+		log("tag t1 at %s", t)
+		refs = append(refs, "t1")
+	}
+	_ = oidsOf
+	if r.Chance(35) { // one of the branches is already on the remote
+		b := Pick(r, refs[:1+r.Intn(len(refs))])
+		if b != "t1" {
+			if _, code := w.git("push", "-q", "origin", b); code == 0 {
+				log("git push origin %s", b)
+			}
+		}
+	}
+	for i := len(refs) - 1; i > 0; i-- {
+		j := r.Intn(i + 1)
+		refs[i], refs[j] = refs[j], refs[i]
+	}
+	named := refs[:1+r.Intn(len(refs))]
+	if r.Chance(50) {
+		named = refs
+	}
+	rl := append([]string{"--objects"}, named...)
+	rl = append(rl, "--not", "--remotes=origin")
+	want := map[string]bool{}
+	for _, l := range revList(w.dir, w.env, rl...) {
+		f := strings.Fields(l)
+		if len(f) < 2 || !strings.HasSuffix(f[1], ".bin") {
+			continue
+		}
+		blob, _ := w.git("cat-file", "blob", f[0])
+		if p, ok := isPointerText([]byte(blob)); ok && p.Size > 0 {
+			want[p.Oid] = true
+		}
+	}
+	args := append([]string{"lfs", "push", "origin"}, named...)
+	log("git %s", strings.Join(args, " "))
+	out, code := w.git(args...)
+	c.R.Count(fmt.Sprintf("lfspush-refs.named.%d", len(named)))
+	c.R.Count(fmt.Sprintf("lfspush-refs.objects.%d", min(len(want), 9)))
+	enc := fmt.Sprintf("C03 lfspush seed=%d idx=%d steps=%s", c.Seed, idx, strings.Join(steps, " ; "))
+	c.R.Eval(enc, len(named) > 1 && len(want) > 0)
+	if code != 0 {
+		c.R.Add(Finding{Kind: "oracle", What: "`git lfs push` of named refs failed although every object is present locally and the server accepts everything", Case: enc, Impl: clip(out, 600)})
+		return
+	}
+	var missing []string
+	srv.mu.Lock()
+	for oid := range want {
+		if _, have := srv.objs[oid]; !have {
+			missing = append(missing, oid[:12])
+		}
+	}
+	srv.mu.Unlock()
+	sort.Strings(missing)
+	if len(missing) > 0 {
+		c.R.Add(Finding{Kind: "oracle", What: "`git lfs push` of several named refs succeeded but an object they reference (and no remote-tracking ref does) is not on the server",
+			Case: enc, Impl: clip(strings.Join(missing, ", ")+" | "+out, 600)})
 	}
 }
 
@@ -693,6 +872,8 @@ func c03(c *Ctx) {
 			}()
 			if i%6 == 5 {
 				c03Missing(c, i, rs)
+			} else if i%6 == 4 {
+				c03LfsPushRefs(c, i, rs)
 			} else {
 				c03Scenario(c, i, rs)
 			}
